@@ -29,14 +29,43 @@ def case_flags(rng, idx):
     f['long_expr'] = rng.random() < 0.3
     f['kinds_module'] = rng.random() < 0.7
     f['max_stmts'] = rng.choice([6, 10, 14, 20])
+    # gated slices: mechanisms with a known finding are exercised in a small share of the cases only
+    r = idx % 16
+    f['associate_expr_complex'] = r == 3
+    f['named_cycle_exit'] = r == 7
+    f['double_not'] = r == 11
     return f
 
 
-def classify(detail, case):
+def innermost_loki_frame(exc):
+    import traceback
+    name = '?'
+    for fr in traceback.extract_tb(exc.__traceback__):
+        if '/loki/' in fr.filename:
+            name = fr.name
+    return name
+
+
+_STMT_WORDS = ['associate', 'exit', 'cycle', 'where', 'select case', 'do while', 'call', 'print', 'end do', 'end if']
+
+
+def classify(detail, src, new):
+    """mechanism key of a differing / non-compiling regenerated program"""
     d = detail or ''
     m = re.search(r'Error: (.{0,80})', d)
     if m:
         return 'roundtrip:compile-error:' + re.sub(r'[^A-Za-z ]+', '', m.group(1)).strip().replace(' ', '-')[:50]
+    lo_s, lo_n = src.lower(), new.lower()
+    if len(re.findall(r'\b(cycle|exit)[ \t]+[a-z]\w*', lo_s)) > len(re.findall(r'\b(cycle|exit)[ \t]+[a-z]\w*', lo_n)) \
+            and lo_s.count('exit') == lo_n.count('exit') and lo_s.count('cycle') == lo_n.count('cycle'):
+        return 'roundtrip:construct-name-lost-on-cycle-exit'
+    for w in _STMT_WORDS:
+        cs = len(re.findall(r'^[ \t]*(\w+:[ \t]*)?(if \(.*\) )?' + w + r'\b', lo_s, re.M))
+        cn = len(re.findall(r'^[ \t]*(\w+:[ \t]*)?(if \(.*\) )?' + w + r'\b', lo_n, re.M))
+        if cn < cs:
+            return f"roundtrip:statement-dropped:{w.replace(' ', '-')}"
+    if 'runtime error' in d or 'AddressSanitizer' in d or 'exit status' in d:
+        return 'roundtrip:runtime-error-in-regenerated'
     return 'roundtrip:output-differs'
 
 
@@ -50,7 +79,7 @@ def run_case(idx, rng, tier, ctx):
         sf = Sourcefile.from_source(case.units)
         new = sf.to_fortran()
     except Exception as e:  # pylint: disable=broad-except
-        res['violations'].append({'key': f'roundtrip:exception:{type(e).__name__}',
+        res['violations'].append({'key': f'roundtrip:exception:{type(e).__name__}@{innermost_loki_frame(e)}',
                                   'msg': f'{type(e).__name__}: {e}', 'witness': {'source': case.units}})
         return res
     wd = ctx['scratch'] / f'c{idx}'
@@ -60,7 +89,7 @@ def run_case(idx, rng, tier, ctx):
     if d['status'] == 'orig_bad':
         res['inconclusive'] = 'generator defect: ' + d['detail'][:300]
     elif d['status'] in ('differ', 'new_build_fail'):
-        res['violations'].append({'key': classify(d['detail'], case), 'msg': d['detail'][:600],
+        res['violations'].append({'key': classify(d['detail'], case.units, new), 'msg': d['detail'][:600],
                                   'witness': {'source': case.units, 'regenerated': new, 'driver': case.driver,
                                               'diff': d}})
     else:
